@@ -79,10 +79,22 @@ pub fn run(args: &Args) -> i32 {
 #[derive(Debug, Clone, PartialEq)]
 struct Reads {
     take: Option<Vec<Row>>,
+    /// take_rows by _rowid (goes through the row-id index when stable row ids are on)
+    take_rows: Option<Vec<Row>>,
     queries: Vec<(String, BTreeSet<i64>)>,
 }
 
-async fn other_reads(ds: &Dataset, offsets: &[u64], preds: &[String]) -> Result<Reads, String> {
+async fn other_reads(ds: &Dataset, offsets: &[u64], preds: &[String], row_ids: &[u64]) -> Result<Reads, String> {
+    let trace = std::env::var("E_HIST_TRACE").is_ok();
+    if trace {
+        eprintln!("TRACE     reads: take_rows {:?} take {:?} preds {:?}", row_ids, offsets, preds);
+    }
+    let take_rows = if row_ids.is_empty() {
+        None
+    } else {
+        let b = ds.take_rows(row_ids, ds.schema().clone()).await.map_err(|e| format!("take_rows: {e}"))?;
+        Some(batch_to_rows(&b))
+    };
     let take = if offsets.is_empty() {
         None
     } else {
@@ -91,6 +103,9 @@ async fn other_reads(ds: &Dataset, offsets: &[u64], preds: &[String]) -> Result<
     };
     let mut queries = vec![];
     for p in preds {
+        if trace {
+            eprintln!("TRACE     reads: query {p}");
+        }
         let mut sc = ds.scan();
         sc.filter(p).map_err(|e| format!("filter {p}: {e}"))?;
         sc.project(&["id"]).map_err(|e| e.to_string())?;
@@ -98,16 +113,31 @@ async fn other_reads(ds: &Dataset, offsets: &[u64], preds: &[String]) -> Result<
         let bs: Vec<arrow_array::RecordBatch> = st.try_collect().await.map_err(|e| format!("query {p}: {e}"))?;
         queries.push((p.clone(), batches_to_rows(&bs).iter().filter_map(|r| r[0].as_i64()).collect()));
     }
-    Ok(Reads { take, queries })
+    Ok(Reads { take, take_rows, queries })
 }
 
 async fn full_read(ds: &Dataset, h: &Hist, offsets: &[u64], preds: &[String]) -> Result<(Snapshot, Reads), String> {
-    crate::walker::guard(async {
+    // generous watchdog: a read that does not complete is reported as inconclusive by the caller
+    let fut = crate::walker::guard(async {
         let s = take_snapshot(ds, &h.env.raw()).await?;
-        let r = other_reads(ds, offsets, preds).await?;
+        // row ids of the first / middle / last row this very read returned
+        let k = s.names.iter().position(|n| n == "_rowid");
+        let mut row_ids: Vec<u64> = vec![];
+        if let (Some(k), false) = (k, s.rows.is_empty()) {
+            for i in [0, s.rows.len() / 2, s.rows.len() - 1] {
+                if let Some(x) = s.rows[i][k].as_i64() {
+                    row_ids.push(x as u64);
+                }
+            }
+            row_ids.dedup();
+        }
+        let r = other_reads(ds, offsets, preds, &row_ids).await?;
         Ok((s, r))
-    })
-    .await
+    });
+    match tokio::time::timeout(std::time::Duration::from_secs(75), fut).await {
+        Ok(r) => r,
+        Err(_) => Err("WATCHDOG: read did not complete within 75 s".into()),
+    }
 }
 
 async fn one_case(seed: u64, case: u64, max_ops: usize, report: &Report) {
@@ -116,6 +146,7 @@ async fn one_case(seed: u64, case: u64, max_ops: usize, report: &Report) {
     if rng.chance(2, 3) && cfg.storage != lance_encoding::version::LanceFileVersion::Legacy {
         cfg.stable_row_ids = true;
     }
+    cfg.no_deferred_remap = !std::env::var("E_HIST_C38_DEFER").is_ok();
     let (cache_name, idx_bytes, meta_bytes) = CACHES[(case % 3) as usize];
     let n_tables = rng.urange(1, 3);
     let n_ops = rng.urange(6, max_ops);
@@ -196,6 +227,10 @@ async fn one_case(seed: u64, case: u64, max_ops: usize, report: &Report) {
                     if !prs.is_empty() {
                         report.count("indexed_queries_compared", prs.len() as u64);
                     }
+                    if let Some(e) = [&reference, &got].iter().filter_map(|r| r.as_ref().err()).find(|e| e.starts_with("WATCHDOG")) {
+                        report.inconclusive(&format!("case {case}: {}:v{} ({how}, cache {cache_name}): {e}", loc.label(), v));
+                        continue;
+                    }
                     match (&reference, &got) {
                         (Ok((rs, rr)), Ok((gs, gr))) => {
                             report.count("rows_compared", rs.rows.len() as u64);
@@ -206,7 +241,13 @@ async fn one_case(seed: u64, case: u64, max_ops: usize, report: &Report) {
                                     json!({"ctx": ctx(&h), "how": how, "diff": detail}),
                                 );
                             } else if rr != gr {
-                                let class = if rr.take != gr.take { "take" } else { "indexed-query" };
+                                let class = if rr.take != gr.take {
+                                    "take"
+                                } else if rr.take_rows != gr.take_rows {
+                                    "take_rows"
+                                } else {
+                                    "indexed-query"
+                                };
                                 report.violation(
                                     &format!("shared-session-{class}-differs{}", suffix(&loc)),
                                     &format!("{}:v{} {class} through the shared Session ({how}, cache {cache_name}) differs from a fresh Session", loc.label(), v),
